@@ -256,6 +256,11 @@ func (l *Gpos4_1) encode() []byte {
 		byte(baseCount>>8), byte(baseCount),
 	)
 	offs = 2 + 2*baseCount*markClassCount
+	if baseCount*markClassCount > (65536-6-2)/2 {
+		// the reader refuses larger arrays: there must still be space for
+		// at least one anchor table
+		panic("Gpos4_1 too large")
+	}
 	for _, row := range l.BaseArray {
 		for _, rec := range row {
 			if rec.IsEmpty() {
